@@ -457,6 +457,10 @@ func (cc *Conn) do(req *pool.Message) (*pool.Message, error) {
 
 // DoObserve subscribes for every change with request.
 func (cc *Conn) doObserve(req *pool.Message, observeFunc func(req *pool.Message)) (client.Observation, error) {
+	// NewObservation waits for the response to the registration. When the caller is a handler or an
+	// observe callback, it occupies the loop that reads the received messages: let another loop take
+	// over (as Do does before it waits), otherwise the awaited response is never processed.
+	cc.receivedMessageReader.TryToReplaceLoop()
 	return cc.observationHandler.NewObservation(req, observeFunc)
 }
 
